@@ -35,6 +35,9 @@ VALID_EXTRA = {
     # the same dummy procedure name declared by a type statement + EXTERNAL statement in two procedures of one file
     "external_in_two_procedures": "subroutine one(f, x)\n  implicit none\n  real f, x\n  external f\n  x = f(x)\nend subroutine one\n"
                                   "subroutine two(f, y)\n  implicit none\n  external f\n  real f, y\n  y = f(y)\nend subroutine two\n",
+    # names are case-insensitive, also between a type statement and a separate EXTERNAL statement
+    "external_mixed_case": "subroutine emc(func, x)\n  implicit none\n  real func, x\n  EXTERNAL FUNC\n  x = Func(x)\nend subroutine emc\n"
+                           "subroutine emc2(g, y)\n  implicit none\n  external G\n  real :: g, y\n  y = g(y)\nend subroutine emc2\n",
     # host association and shadowing in nested scopes
     "block_shadow": "subroutine bs(n)\n  implicit none\n  integer :: n, k\n  k = n\n  block\n    real :: q\n    q = 1.0\n    block\n      integer :: r\n      r = k\n    end block\n  end block\n"
                     "  block\n    integer :: q\n    q = 2\n  end block\nend subroutine bs\n",
